@@ -240,7 +240,8 @@ void h_fx_getelement(void)
 	request.type = cJSON_Object; request.next = request.prev = request.child = NULL; request.string = NULL; request.valuestring = NULL;
 	cJSON *response = NULL;
 	verif_cj_may_fail = FX_GET_FAIL;   /* C15: every JSON allocation made while the entry is built may fail */
-	int r = get_element(&verif_peer[1], &request, &verif_e, &verif_f[1], states, &response);
+	/* as at the call site: p is the peer that OWNS the element (peer 0), the asking peer is the fetch's (peer 1) */
+	int r = get_element(&verif_peer[0], &request, &verif_e, &verif_f[1], states, &response);
 	verif_cj_may_fail = false;
 	bool visible = ((verif_e.fetch_groups & verif_peer[1].fetch_groups) != 0) && verif_e.value != NULL;
 	unsigned entries = 0;
